@@ -677,12 +677,28 @@ func (g *rawGen) bundle() (map[string]string, []string) {
 	if g.on() {
 		fmt.Fprintf(&m, "  message Local {\n    string a = 1;\n    enum Mode {\n      MODE_UNSPECIFIED = 0;\n      MODE_ON = 1;\n    }\n    Mode mode = 2;\n    rawb.v1.Shared shared = 3;\n  }\n  Local local = %d;\n  repeated Local.Mode modes = %d;\n", num(), num())
 	}
+	if g.on() {
+		// an enum whose values carry no prefix at all
+		fmt.Fprintf(&m, "  enum Bare {\n    UNSPECIFIED = 0;\n    ONE = 1;\n    TWO = 2;\n  }\n  Bare bare = %d;\n  repeated Bare bares = %d;\n", num(), num())
+	}
+	indirect := g.on()
+	if indirect {
+		// types of a package (and of one of its sub-packages) which the image does not list as its own
+		fmt.Fprintf(&m, "  dep.v1.Base base = %d;\n  dep.v1.shared.Address address = %d;\n  map<string, dep.v1.shared.Address> addresses = %d;\n  dep.v1.shared.Address.Kind address_kind = %d;\n", num(), num(), num(), num())
+	}
 	if n == 0 {
 		m.WriteString("  string only = 1;\n")
 	}
 	m.WriteString("}\n")
 
-	files := map[string]string{"rawb/v1/shared.proto": sh.String(), "rawa/v1/main.proto": m.String()}
+	main := m.String()
+	files := map[string]string{"rawb/v1/shared.proto": sh.String()}
+	if indirect {
+		main = strings.Replace(main, "import \"rawb/v1/shared.proto\";", "import \"rawb/v1/shared.proto\";\nimport \"dep/v1/base.proto\";\nimport \"dep/v1/shared/address.proto\";", 1)
+		files["dep/v1/base.proto"] = "syntax = \"proto3\";\npackage dep.v1;\nimport \"dep/v1/shared/address.proto\";\n\nmessage Base {\n  string id = 1;\n  dep.v1.shared.Address home = 2;\n}\n"
+		files["dep/v1/shared/address.proto"] = "syntax = \"proto3\";\npackage dep.v1.shared;\n\nmessage Address {\n  string line = 1;\n  enum Kind {\n    KIND_UNSPECIFIED = 0;\n    KIND_HOME = 1;\n  }\n  Kind kind = 2;\n  Address forward = 3;\n}\n"
+	}
+	files["rawa/v1/main.proto"] = main
 	pkgs := []string{"rawa.v1", "rawb.v1"}
 	if g.on() {
 		// a sub-package referring to both
